@@ -73,6 +73,15 @@ def crowded_atoms_face():
     return c
 
 
+def crowded_atoms_edge():
+    """The initially active atom 0 is 8e-4 below the x-face of its cell and runs towards an occupant + surplus pair
+    in the next cell: a surplus-cell event of (0, 2) can fire before the crossing, and the crossing comes before the
+    first cell-veto event of a quiet leg -- between the two only the cell-boundary event keeps the recorded cell
+    right."""
+    return [([0.3325, 0.05, 0.05], {Q: 1.0}), ([0.45, 0.12, 0.05], {Q: 1.0}), ([0.40, 0.05, 0.06], {Q: 1.0}),
+            ([0.95, 0.92, 0.05], {Q: 1.0})]
+
+
 def crowded_atoms_5():
     return crowded_atoms() + [([0.30, 0.15, 0.13], {Q: 1.0})]
 
@@ -192,6 +201,10 @@ def families(tier, horizon=25):
                name="coulomb/cell_veto+face4"),
         scaled(J + "coulomb_atoms/cell_bounded.ini", 4, start=crowded_atoms_face(), horizon=horizon,
                name="coulomb/cell_bounded+face4"),
+        scaled(J + "coulomb_atoms/cell_veto.ini", 4, start=crowded_atoms_edge(), horizon=12,
+               name="coulomb/cell_veto+edge4"),
+        scaled(J + "coulomb_atoms/cell_bounded.ini", 4, start=crowded_atoms_edge(), horizon=12,
+               name="coulomb/cell_bounded+edge4"),
         scaled(J + "coulomb_atoms/power_bounded.ini", 3, horizon=horizon),
         scaled(J + "dipoles/cell_veto.ini", 4, start=crowded_dipoles(), horizon=horizon, name="dipoles/cell_veto+crowd4"),
         scaled(J + "dipoles/cell_bounded.ini", 4, start=crowded_dipoles(), horizon=horizon,
